@@ -92,13 +92,13 @@ def check_case(rec, case):
             rec.case = case
             rec.counters['pda_limit_reduced_for_exploding_closure'] += 1
     if kind == 'dfa':
-        X = adapt.build_dfa(R)
+        X = adapt.build_dfa(R, scramble=case.get('scr'))
         Sigma = R[1]
         acc = lambda w: da.dfa_accepts_word(X, w)
         enum = lambda n: da.dfa_words_up_to_n(X, n)
         fname = 'dfa_words_up_to_n'
     elif kind == 'nfa':
-        X = adapt.build_nfa(R, case.get('eps', ''), case.get('container', 'defaultdict_set'))
+        X = adapt.build_nfa(R, case.get('eps', ''), case.get('container', 'defaultdict_set'), scramble=case.get('scr'))
         Sigma = R[1]
         acc = lambda w: na.nfa_accepts_word(X, w)
         enum = lambda n: na.nfa_words_up_to_n(X, n)
@@ -123,7 +123,7 @@ def check_case(rec, case):
         enum = lambda n: ta.tm_words_up_to_n(X, n, k)
         fname = 'tm_words_up_to_n'
     elif kind == 'pda':
-        X = adapt.build_pda(R, case.get('eps', ''))
+        X = adapt.build_pda(R, case.get('eps', ''), scramble=case.get('scr'))
         Sigma = R[1]
         acc = lambda w: pa.pda_accepts_word(X, w)
         enum = lambda n: pa.pda_words_up_to_n(X, n)
@@ -241,14 +241,31 @@ def gen_cases(rec, rng, tier):
         RG2 = cfgg.random_grammar(rng, rng.randint(2, 5), rng.randint(2, 8), max_rhs=3, nt=2)
         yield {'kind': 'cfg', 'cls': 'multichar_variable_names', 'ref': cfgg.multichar_renaming(rng, RG2), 'ns': ns}
         yield {'kind': 'cfg', 'cls': 'ambiguous_name_concatenation', 'ref': cfgg.ambiguous_concat_cnf(rng), 'ns': [0, 1, 2, 3]}
+        yield {'kind': 'cfg', 'cls': 'ambiguous_long_rule_tails', 'ref': cfgg.ambiguous_long_rules(rng), 'ns': [0, 4]} if rng.random() < 0.4 else {'kind': 'cfg', 'cls': 'ambiguous_name_concatenation', 'ref': cfgg.ambiguous_concat_cnf(rng), 'ns': [2, 3]}
         for tw in cfgg.start_twins(RG2)[:2]:
             yield {'kind': 'cfg', 'cls': 'same_rules_other_start_variable', 'ref': tw, 'ns': [0, 2, 3]}
         RP = pdag.random_pda(rng, rng.randint(1, 4), rng.randint(1, 2), rng.randint(0, 3), rng.randint(1, 8))
         lim = rng.choice([3, 10, 50, 1000])
-        yield {'kind': 'pda', 'cls': 'random_pda', 'ref': RP, 'ns': [0, 1, 2, 3] if lim == 1000 else ns, 'limit': lim, 'eps': rng.choice(['', '_'])}
+        yield {'kind': 'pda', 'cls': 'random_pda', 'ref': RP, 'ns': [0, 1, 2] if lim == 1000 else ([0, 1, 2, 3] if lim == 50 else ns), 'limit': lim, 'eps': rng.choice(['', '_'])}
+        RPc = pdag.colliding_names(rng, RP)
+        if RPc is not None:
+            yield {'kind': 'pda', 'cls': 'colliding_state_and_stack_names', 'ref': RPc, 'ns': [0, 1, 2, 3], 'limit': 10, 'eps': ''}
         from vt.props.c11 import random_tm
         RT = random_tm(rng, rng.randint(1, 3), rng.randint(0, 2), rng.randint(1, 2), rng.choice(['_', '□']), p_def=rng.choice([0.5, 0.8, 1.0]))
         yield {'kind': 'tm', 'cls': 'random_tm', 'ref': RT, 'ns': [0, 1, 2, 3], 'max_steps': rng.choice([0, 1, 5, 50, 1000])}
+        for _ in range(3):
+            RT2 = random_tm(rng, rng.randint(2, 4), rng.randint(0, 2), 2, rng.choice(['_', '□']), p_def=rng.choice([0.8, 1.0]))
+            yield {'kind': 'tm', 'cls': 'random_tm', 'ref': RT2, 'ns': [0, 2, 3, 4], 'max_steps': rng.choice([5, 50, 1000])}
+    if rec.shard % 4 == 1:
+        # zig-zag machines: look at the far end, come back, decide in the middle (palindromes; equal ends)
+        Q = ['s', 'ra', 'rb', 'ca', 'cb', 'back', 'qa', 'qr']
+        D = [('s', 'a', 'ra', '_', 'R'), ('s', 'b', 'rb', '_', 'R'), ('s', '_', 'qa', '_', 'R'),
+             ('ra', 'a', 'ra', 'a', 'R'), ('ra', 'b', 'ra', 'b', 'R'), ('ra', '_', 'ca', '_', 'L'),
+             ('rb', 'a', 'rb', 'a', 'R'), ('rb', 'b', 'rb', 'b', 'R'), ('rb', '_', 'cb', '_', 'L'),
+             ('ca', 'a', 'back', '_', 'L'), ('ca', '_', 'qa', '_', 'R'), ('cb', 'b', 'back', '_', 'L'), ('cb', '_', 'qa', '_', 'R'),
+             ('back', 'a', 'back', 'a', 'L'), ('back', 'b', 'back', 'b', 'L'), ('back', '_', 's', '_', 'R')]
+        yield {'kind': 'tm', 'cls': 'zigzag_palindromes', 'ref': tmr.make(Q, 'ab', 'ab_', D, 's', 'qa', 'qr', '_'), 'ns': [0, 1, 3, 4, 5], 'max_steps': 1000}
+        yield {'kind': 'tm', 'cls': 'zigzag_palindromes', 'ref': tmr.make(Q, 'ab', 'ab_', D, 's', 'qa', 'qr', '_'), 'ns': [3, 4], 'max_steps': 12}
     if rec.shard == 5:
         from vt.props.c11 import shipped_tm
         try:
@@ -265,5 +282,8 @@ def run(rec, rng, tier):
     if rc is not None:
         check_case(rec, rc)
         return
+    import time
     for case in gen_cases(rec, rng, tier):
-        check_case(rec, case)
+        t0 = time.time()
+        check_case(rec, common.with_scramble(case))
+        rec.extra['seconds:' + case['cls']] = rec.extra.get('seconds:' + case['cls'], 0) + time.time() - t0
